@@ -136,6 +136,24 @@ def hpp_struct(ctx, L):
     # parts
     g = m.func('_HppDefinitionsTranslator.translate_struct')
     gs = ws(unparse(g.node))
+    # one padder per struct: `_paddingN` members are numbered struct-wide, so every manual padding of the struct (member gaps,
+    # optional flag-to-value gaps, in the main block and in every part) must come from the one instance created here
+    made = [c for c in g.walk(into_nested=True) if isinstance(c, ast.Call) and ws(unparse(c.func)) == '_Padder']
+    pads_all = [c for c in g.walk(into_nested=True) if isinstance(c, ast.Call) and isinstance(c.func, ast.Attribute) and c.func.attr == 'generate_padding']
+    one = len(made) == 1 and isinstance(m.parent(made[0]), ast.Assign) and m.parent(made[0]) in g.node.body \
+        and isinstance(m.parent(made[0]).targets[0], ast.Name)
+    L.check(one and bool(pads_all) and all(isinstance(c.func.value, ast.Name) and c.func.value.id == f.params[1] for c in pads_all), 'C08.padder',
+            'translate_struct|one-padder', g.site(made[0] if made else None),
+            'every manual padding of a struct is generated by the struct\'s single _Padder (created once in translate_struct and handed to '
+            'gen_member): a second instance restarts the numbering at _padding0 and the header declares the same member twice',
+            ' ; '.join(ws(unparse(c)) for c in made + pads_all))
+    if one:
+        pname = m.parent(made[0]).targets[0].id
+        gm_calls = [c for c in g.walk(into_nested=True) if isinstance(c, ast.Call) and isinstance(c.func, ast.Name) and c.func.id == 'gen_member']
+        L.check(bool(gm_calls) and all(len(c.args) == 2 and isinstance(c.args[1], ast.Name) for c in gm_calls) and
+                all(isinstance(a, ast.Name) and a.id == pname for c in g.walk(into_nested=True) if isinstance(c, ast.Call) and isinstance(c.func, ast.Name)
+                    and c.func.id in ('gen_block', 'gen_part') and m.func_of.get(id(c)) is g for a in c.args[-1:]),
+                'C08.padder', 'translate_struct|padder-threaded', g.site(), 'the one padder is handed to the main block and to every part', '')
     L.check(inn('main, parts = model.partition(struct.members)', gs), 'C08.parts', 'translate_struct|partition', g.site(),
             'the struct is split by model.partition (after each dynamic field)', '')
     TS = ['self', 'struct']
